@@ -257,7 +257,9 @@ def _note_parts(tier):
                                                                                        measures=[(0, 16), (16, 48)])))
     def late_then_early():
         # divisions set for a later stretch first and for the opening afterwards, on a part that already has its time points
-        p = G.build_part("P", 4, notes=[("a", 0, 16, "C", None, 4, 1, 1), ("b", 16, 16, "D", None, 4, 1, 1), ("c", 32, 16, "E", None, 4, 1, 1), ("d", 48, 32, "F", None, 4, 1, 1)],
+        # (the part starts out with ONE division per quarter, so that the second call replaces a different value and is not a no-op)
+        p = G.build_part("P", 1, notes=[("a", 0, 16, "C", None, 4, 1, 1), ("b", 16, 16, "D", None, 4, 1, 1), ("c", 32, 16, "E", None, 4, 1, 1), ("d", 48, 32, "F", None, 4, 1, 1),
+                                        ("lo", 0, 24, "C", None, 3, 2, 1), ("held", 24, 16, "D", None, 3, 2, 1), ("lo2", 40, 56, "E", None, 3, 2, 1)],
                          measures=[(0, 16), (16, 32), (32, 64), (64, 96)])
         p.set_quarter_duration(32, 8)
         p.set_quarter_duration(0, 4)
@@ -273,6 +275,12 @@ def _note_parts(tier):
         out.append(("divs480", lambda: G.build_part("P", 480, notes=[("a", 0, 2400, "C", None, 4, 1, 1), ("b", 2400, 600, "D", None, 4, 1, 1), ("c", 3000, 3615, "E", None, 4, 1, 1)], measures="auto")))
         out.append(("divs1", lambda: G.build_part("P", 1, notes=[("a", 0, 7, "C", None, 4, 1, 1), ("b", 7, 2, "D", None, 4, 1, 1)], measures="auto")))
     return out
+
+
+def _q(part, n):
+    """the divisions in force at the note's start, from the part's table of changes (not from the value cached on the time point)"""
+    from gen import oracles as O
+    return O.q_in_force(part, n.start.t)
 
 
 def _sounding(part):
@@ -315,8 +323,8 @@ def bounded(b):
                 good, what = True, ""
                 for n in part.iter_all(sc.GenericNote, include_subclasses=True):
                     sd = n.symbolic_duration
-                    if sd and n.duration and isinstance(sd, dict) and sd.get("type") and _numeric(sd, n.start.quarter) != n.duration:
-                        good, what = False, "note %s duration %d but symbolic %r = %s under %d divisions (read as %r before the change)" % (n.id, n.duration, sd, _numeric(sd, n.start.quarter), n.start.quarter, first.get(n.id))
+                    if sd and n.duration and isinstance(sd, dict) and sd.get("type") and _numeric(sd, _q(part, n)) != n.duration:
+                        good, what = False, "note %s duration %d but symbolic %r = %s under %d divisions (read as %r before the change)" % (n.id, n.duration, sd, _numeric(sd, _q(part, n)), n.start.quarter, first.get(n.id))
                 b.case("normalise/assigned_symbolic_durations_evaluate_to_numeric", good, case, what)
         for op_name in ("tie_notes", "find_tuplets", "fill_rests", "sanitize_part", "tie_then_tuplets"):
             case = {"part": name, "op": op_name}
@@ -355,6 +363,6 @@ def bounded(b):
             for n in part.iter_all(sc.GenericNote, include_subclasses=True):
                 sd = n.symbolic_duration
                 if sd and n.duration and isinstance(sd, dict) and sd.get("type"):
-                    if _numeric(sd, n.start.quarter) != n.duration:
-                        good, what = False, "note %s duration %d but symbolic %r = %s under %d divisions" % (n.id, n.duration, sd, _numeric(sd, n.start.quarter), n.start.quarter)
+                    if _numeric(sd, _q(part, n)) != n.duration:
+                        good, what = False, "note %s duration %d but symbolic %r = %s under %d divisions" % (n.id, n.duration, sd, _numeric(sd, _q(part, n)), _q(part, n))
             b.case("normalise/assigned_symbolic_durations_evaluate_to_numeric", good, case, what)
